@@ -133,6 +133,7 @@ func contractTags(c *FuncContract) []string {
 	}
 	add(c.Requires)
 	add(c.Ensures)
+	add(c.Checks)
 	for _, cg := range c.CallGhosts {
 		for _, t := range cg.Tags {
 			if t != "support" {
@@ -689,7 +690,27 @@ func (fe *FnExec) loopEnv(st *State, l *Loop) *Env {
 	for name, a := range best {
 		env.vars[name] = Binding{st.locals[a], a.Type().(*types.Pointer).Elem()}
 	}
+	fe.bindOrdinalLocals(st, env)
 	return env
+}
+
+// bindOrdinalLocals makes every named local available as name_k (k-th local of
+// that name in instruction order), for locals the default rule cannot tell apart
+// (e.g. the hidden rangeindex variables of nested range loops).
+func (fe *FnExec) bindOrdinalLocals(st *State, env *Env) {
+	count := map[string]int{}
+	for _, b := range fe.Fn.Blocks {
+		for _, in := range b.Instrs {
+			a, ok := in.(*ssa.Alloc)
+			if !ok || a.Comment == "" {
+				continue
+			}
+			count[a.Comment]++
+			if v, isLocal := st.locals[a]; isLocal {
+				env.vars[fmt.Sprintf("%s_%d", a.Comment, count[a.Comment])] = Binding{v, a.Type().(*types.Pointer).Elem()}
+			}
+		}
+	}
 }
 
 func (fe *FnExec) checkInvariants(st *State, l *Loop, phase string) {
@@ -923,6 +944,9 @@ func (fe *FnExec) f32Const(v constant.Value) Term {
 
 func (st *State) loadGlobal(key string, t types.Type) (SVal, error) {
 	if isStructByValue(t) {
+		if t.Underlying().(*types.Struct).NumFields() == 0 {
+			return StructV{T: t}, nil
+		}
 		return nil, fmt.Errorf("struct-typed global %s unsupported", key)
 	}
 	cs, err := compsOf(t)
